@@ -1311,7 +1311,7 @@ class C06(Prop):
                     else:
                         yield {**c, "mode": "line", "g": 40.0, "c": 12.0, "ptype": mode}
                 yield {"kind": "calibrate", "mode": "line", "g": 40.0, "c": 12.0, "shape": [], "dtype": order + base,
-                       "layout": ["c", "scalar", "strided", "field", "pyscalar"][k % 5], "data": counts[1:2]}
+                       "layout": ["c", "scalar", "strided", "field", "pyscalar"][(k // 5) % 5], "data": counts[1:2]}
         # sessions on one object
         few = {"op": "refit", "rows": [[1.0, 2.0], [2.0, None]], "weighting": "1/x", "cw": None}
         fit = {"op": "refit", "rows": base, "weighting": "1/x", "cw": None}
